@@ -105,9 +105,12 @@ func TestC15(t *testing.T) {
 		for i := 0; i < r.N(12, 120); i++ {
 			lifetimes(r, i)
 		}
+		for i := 0; i < r.N(20, 200); i++ {
+			updaterDuringPollOfStaleSecret(t, r, i)
+		}
 	}
 	r.Require("gets_after_install", "gets_without_install", "gets_after_many_installs", "builder_failures", "closes_checked", "updater_created_during_install",
-		"installs_with_failing_cache", "concurrent_gets", "updaters_from_racing_lookups", "interface_typed_updater_gets", "gets_while_failed_build_outstanding", "updater_lifetime_cases")
+		"installs_with_failing_cache", "concurrent_gets", "updaters_from_racing_lookups", "interface_typed_updater_gets", "gets_while_failed_build_outstanding", "updater_lifetime_cases", "updaters_created_during_a_poll_of_a_stale_secret")
 	r.Rule("sequential seeded histories over 2 secrets and up to 5 updaters: installs (0..4 between Gets, sometimes with a failing cache write), updater creation (also while an install lands during its initial build), scripted builder failures, Gets; exact expectations per Get on (builder invoked?, with which bytes, value returned, Err, Close counts). Concurrent runs: 8 Get goroutines vs an installer, judged by call/return stamps. Distinct = (event, installs since last Get capped at 3, builder outcome)")
 }
 
@@ -688,4 +691,74 @@ func lifetimes(r *evid.Run, idx int) {
 	r.Count("updater_lifetime_cases", 1)
 	r.Distinct("updater lifetimes")
 	runtime.KeepAlive(live)
+}
+
+// updaterDuringPollOfStaleSecret: a process restarted from its cache holds an undeclared secret that nobody has
+// touched for longer than the expiry age. While a poll is in flight (it has taken its decisions and is waiting for
+// the service) an updater is created for that secret. From then on it is a watched secret like any other: the
+// updater must see every later version.
+func updaterDuringPollOfStaleSecret(t *testing.T, r *evid.Run, idx int) {
+	rng := r.Rand(uint64(44_000_000 + idx))
+	r.Eval(1)
+	svc := fakesvc.New()
+	svc.Set("apple", 1, []byte("apple#1"))
+	svc.Set("plum", 1, []byte("plum#1"))
+	now := int64(2_000_000_000)
+	stale := now - int64(2*time.Hour/time.Second) - int64(rng.IntN(100000))
+	doc := fmt.Sprintf(`{"apple":{"secret":{"Value":"YXBwbGUjMQ==","Version":1},"lastAccess":"%d"},"plum":{"secret":{"Value":"cGx1bSMx","Version":1},"lastAccess":"%d"}}`, now-5, stale)
+	cache := &fakesvc.MonCache{Initial: []byte(doc)}
+	parked := make(chan struct{}, 1)
+	release := make(chan struct{})
+	var armed atomic.Bool
+	svc.Behave = func(q *fakesvc.Req) fakesvc.Behaviour {
+		if q.Cond && armed.CompareAndSwap(true, false) {
+			parked <- struct{}{}
+			return fakesvc.Behaviour{Hold: release}
+		}
+		return fakesvc.Behaviour{}
+	}
+	st, err := setec.NewStore(context.Background(), setec.StoreConfig{Client: svc, Secrets: []string{"apple"}, AllowLookup: true, Cache: cache, PollInterval: -1,
+		ExpiryAge: time.Hour, TimeNow: func() time.Time { return time.Unix(now, 0) }, Logf: func(string, ...any) {}})
+	if err != nil {
+		r.Violation("newstore-fails", idx, err.Error(), nil)
+		return
+	}
+	defer st.Close()
+	armed.Store(true)
+	done := make(chan error, 1)
+	go func() { done <- st.Refresh(context.Background()) }()
+	var u *setec.Updater[string]
+	select {
+	case <-parked:
+		u, err = setec.NewUpdater(context.Background(), st, "plum", func(b []byte) (string, error) { return string(b), nil })
+		close(release)
+	case <-time.After(10 * time.Second):
+		close(release)
+		r.Inconclusive("updater during poll: the poll never reached the service")
+		<-done
+		return
+	}
+	<-done
+	if err != nil {
+		r.Violation("updater-fails", idx, fmt.Sprintf("an updater for a secret the store holds (from its cache): %v", err), nil)
+		return
+	}
+	r.Count("updaters_created_during_a_poll_of_a_stale_secret", 1)
+	r.Distinct("updater created during a poll of a stale cached secret")
+	for v := uint32(2); v <= 3; v++ {
+		want := fmt.Sprintf("plum#%d", v)
+		svc.Set("plum", v, []byte(want))
+		if err := st.Refresh(context.Background()); err != nil {
+			r.Violation("refresh-fails", idx, err.Error(), nil)
+			return
+		}
+		got, pan := func() (s string, p any) {
+			defer func() { p = recover() }()
+			return u.Get(), nil
+		}()
+		if pan != nil || got != want {
+			r.Violation("stale-after-install", idx, fmt.Sprintf("case %d: an updater created (for a cached, long-unread, undeclared secret) while a poll was in flight: the service now has %q, a poll has completed, the updater returns %q (panic: %v)", idx, want, got, pan), nil)
+			return
+		}
+	}
 }
